@@ -31,7 +31,7 @@ deriving DecidableEq, Repr
 
 /-- `tarTypeToFsType` -/
 def tarTypeToFsType (t : UInt8) : TarTypeRes :=
-  if t = 0x30 ∨ t = 0 ∨ t = 0x53 then .kind .file   -- '0', '\x00', 'S' (old-GNU sparse: `fix:` f99687e)
+  if t = 0x30 ∨ t = 0 ∨ t = 0x53 ∨ t = 0x37 then .kind .file   -- '0', '\x00', 'S' (old-GNU sparse: `fix:` f99687e), '7' (contiguous)
   else if t = 0x31 then .kind .hardlink          -- '1'
   else if t = 0x32 then .kind .symlink           -- '2'
   else if t = 0x33 then .kind .chardev           -- '3'
